@@ -951,6 +951,25 @@ pub fn to_duration(r: &Report) {
             spans.push(m);
         }
     }
+    // the three sub-second units together: every combination of sub-second
+    // remainders {0, 1, half, just under one second} (times whole-second
+    // parts 0 / a few seconds), so that their sum crosses one, two and - for
+    // three large remainders - 2^31 nanoseconds (a carry or a narrow
+    // accumulator shows only when all three are large at once)
+    for sg in [1i128, -1] {
+        for ms in [0i128, 1, 500, 750, 999, 4_800] {
+            for us in [0i128, 1, 500_000, 750_000, 999_999, 7_900_000] {
+                for ns in [0i128, 1, 500_000_000, 750_000_000, 999_999_999, 12_950_000_000] {
+                    let mut m = M::zero();
+                    m = m.set(7, sg * ms).unwrap();
+                    m = m.set(8, sg * us).unwrap();
+                    m = m.set(9, sg * ns).unwrap();
+                    spans.push(m);
+                    spans.push(m.set(6, sg * 59).unwrap());
+                }
+            }
+        }
+    }
     let (mut ok, mut err) = (0u64, 0u64);
     for m in &spans {
         let Some(s) = build(m) else {
